@@ -477,6 +477,20 @@ class Sim:
                     mod.deepcopy = counted_deepcopy
             _copy._verif_wrapped = True
 
+        # 6. the erasure mutation enumerates up to 500 000 subsets per function and tests each
+        #    with is_combination_feasible(): that is work
+        import src.analysis.type_dependency_analysis as _tda
+        if not getattr(_tda, '_verif_wrapped', False):
+            real_feasible = _tda.is_combination_feasible
+
+            def counted_feasible(*a, **kw):
+                s = Sim.current
+                if s is not None:
+                    s.work(300)
+                return real_feasible(*a, **kw)
+            _tda.is_combination_feasible = counted_feasible
+            _tda._verif_wrapped = True
+
         Sim.current = self
         self.installed = True
         return self
